@@ -362,6 +362,31 @@ Theorem C09_retry_without_deadline_refuted : forall s r k cl,
 Proof. exact retry_without_deadline_refuted. Qed.
 Print Assumptions C09_retry_without_deadline_refuted.
 
+(* ---------- (round 6) the HPACK encoding context of an HTTP/2 connection ---------- *)
+
+(* for every sequence of requests on a connection, within the peer's MAX_HEADER_LIST_SIZE or
+   refused because of it, the peer decodes for each request that is sent exactly the fields the
+   client's shared encoder stands for *)
+Theorem C09_h2_requests_decoded_as_meant : forall peer_max bs,
+  Forall decoded_as_meant (hsend_run (hsend_step peer_max) hsend_init bs).
+Proof. exact h2_requests_decoded_as_meant. Qed.
+Print Assumptions C09_h2_requests_decoded_as_meant.
+
+Theorem C09_h2_refused_request_is_invisible : forall peer_max s b,
+  peer_max < list_size (meant (cl_tbl s) b) -> hsend_step peer_max s b = (s, None).
+Proof. exact h2_refused_request_is_invisible. Qed.
+Print Assumptions C09_h2_refused_request_is_invisible.
+
+Theorem C09_h2_late_size_check_refuted :
+  let bs := [[(0, [HIns (7, 5)])]; [(0, [HIns (8, 5); HLit (1, 100)])]; [(0, [HIns (9, 5)])]; [(0, [HRef 1])]] in
+  hsend_run (hsend_step_late 20) hsend_init bs =
+    [Some ([(7, 5)], [(7, 5)]); None; Some ([(9, 5)], [(9, 5)]); Some ([(8, 5)], [(7, 5)])] /\
+  ~ Forall decoded_as_meant (hsend_run (hsend_step_late 20) hsend_init bs) /\
+  hsend_run (hsend_step 20) hsend_init bs =
+    [Some ([(7, 5)], [(7, 5)]); None; Some ([(9, 5)], [(9, 5)]); Some ([(7, 5)], [(7, 5)])].
+Proof. exact h2_late_size_check_refuted. Qed.
+Print Assumptions C09_h2_late_size_check_refuted.
+
 (* non-vacuity of the HTTP/2 and HTTP/3 machines: two requests share one dialled connection with
    stream ids 1 and 3, a third id is 5 after the first finished; the HTTP/3 client is closed by
    CloseIdleConnections only after its request finished *)
